@@ -35,7 +35,7 @@ RULES["C12"] = (
     "hits, locations on the ray ahead of the origin and on the reported triangle, first hit = argmin t, any = non-empty, "
     "single-hit variants, engines agree. contains_points (both engines) vs generalized winding number for points >= 1e-3*diag "
     "from the surface of watertight meshes. nearest.on_surface / vertex / signed_distance vs the minimum over all triangles "
-    "(own plane-projection + edge-segment distance) for points over faces, over a face a sliver (1e-7..1e-2 barycentric) "
+    "(own plane-projection + edge-segment distance, rtol tol.merge) for points over faces, over a face a sliver (1e-7..1e-2 barycentric) "
     "inside an edge, over edges, over vertices, exactly along an axis from a vertex (offsets 1e-3..1 diag along +-normals), "
     "in the box, outside, far. Non-trivial: a ray batch with >= 1 hit; a point batch with >= 1 kept point. Discard rates are in "
     "the histogram: ray_discard:* / ray_generated, cpoint_discard:* / cpoint_generated, ppoint_discard:* (observed: ~5% of rays)."
@@ -43,7 +43,8 @@ RULES["C12"] = (
 ASSUMPTIONS["C12"] = [
     "float64 Moller-Trumbore / point-segment / solid-angle arithmetic of the oracle is trusted at the stated margins (1e-3 barycentric, 1e-2 incidence, 1e-3*diag distance)",
     "embree stores the mesh shifted to its min corner and scaled to diag=100 in float32: only rays whose edge clearance exceeds 32*2^-24*(|origin-corner|+diag) are put to it",
-    "tolerances: native locations 1e-9*diag + 256*eps*|coords|/|n.d|; embree locations 1e-6*diag (they are float64 plane intersections of the given ray, only the choice of triangle is float32); distances rtol 1e-9 + 64*eps*|coords|",
+    "tolerances: native locations 1e-9*diag + 256*eps*|coords|/|n.d|; embree locations 1e-6*diag (they are float64 plane intersections of the given ray, only the choice of triangle is float32); nearest-vertex distances rtol 1e-9 + 64*eps*|coords|",
+    "surface distances rtol tol.merge (1e-8) + 64*eps*|coords|: proximity.closest_point deliberately treats two candidates whose distances agree to ~tol.merge as tied and returns the one on the side of the face normal (tests/test_proximity.py::test_returns_correct_point_in_ambiguous_cases expects a point 4e-9 (relative) farther than the minimum), so the minimum is only promised to that relative accuracy",
     "pool meshes have no coincident faces (the zero-volume 'pillow' is excluded: intersects_location documents merging hits at one location)",
     "multi-body meshes are disjoint, so the winding number is 0 or 1 and parity containment is well defined",
 ]
@@ -53,6 +54,7 @@ MARGIN = 1e-3  # fixed distance margin, in units of the bounding-box diagonal
 BARY = 1e-3  # fixed barycentric margin for hits and misses
 COSMIN = 1e-2  # fixed incidence margin
 MAX_HITS = 20  # documented max_hits of the embree engine
+DIST_RTOL = 1e-8  # = tol.merge, relative: documented tie window of proximity.closest_point (see ASSUMPTIONS)
 F32K = 32.0 * 2.0**-24
 F32_RESOLVE = 8.0 * 100.0 * 2.0**-23  # a few float32 ulps of a coordinate of the diag=100 embree scene
 
@@ -651,7 +653,7 @@ def b_prox(case, ctx):
         check(cl.shape == (n, 3) and dist.shape == (n,) and tid.shape == (n,), "C12.prox|on_surface|shape", f"{cl.shape} {dist.shape} {tid.shape}")
         for i in range(n):
             d, tri, q, feat, alld = ref[i]
-            tol = 1e-9 * d + 64 * EPS * (g.cmax + np.abs(P[i]).max())
+            tol = DIST_RTOL * d + 64 * EPS * (g.cmax + np.abs(P[i]).max())
             if abs(dist[i] - d) > tol:
                 # root-cause class: is a second triangle inside the library's absolute tie window on SQUARED distances?
                 cls = "too_large" if dist[i] > d else "too_small"
@@ -670,7 +672,7 @@ def b_prox(case, ctx):
             check(sd.shape == (n,), "C12.prox|signed_distance|shape", f"{sd.shape}")
             for i in range(n):
                 d, tri, q, feat, alld = ref[i]
-                tol = 1e-9 * d + 64 * EPS * (g.cmax + np.abs(P[i]).max())
+                tol = DIST_RTOL * d + 64 * EPS * (g.cmax + np.abs(P[i]).max())
                 if abs(abs(sd[i]) - d) > tol:
                     raise Violation(f"C12.prox|signed_distance|magnitude|{_prox_cause(g, P[i], tri, alld)}", f"point {i} {P[i].tolist()}: |{sd[i]!r}| vs {d!r}")
                 if not okw[i]:
